@@ -23,6 +23,7 @@ type Evidence struct {
 	ReplaysAgreed int
 	OKValidated   int
 	Inconclusive  []string
+	Reduced       []string
 	Known         []string
 	Replays       []map[string]string
 	funcs         map[string]int
@@ -161,6 +162,7 @@ func (ev *Evidence) write(wall time.Duration) {
 		"counterexample_replays":               ev.Replays,
 		"known_findings":                       ev.Known,
 		"inconclusive":                         ev.Inconclusive,
+		"not_explored_within_time_budget":      ev.Reduced,
 		"exhaustive":                           false,
 	}
 	var assumptions []string
